@@ -1,7 +1,72 @@
-(* C03 — property theorems only (proved in P_Chain.v). *)
+(* C03 — property theorems only (proved in P_Chain.v).
+   Model: M_Chain.chain_cfg compiles a chain of generator-like objects / coroutine wrappers /
+   asend-athrow awaitables / leaves into an M_Frames.cfg whose unwrap table is the built-in
+   rules of stackscope._glue.glue_builtins; [extract] and [run] are M_Frames' own functions. *)
 Require Import Base M_Frames M_Chain P_Chain.
+From SS.gen Require Import SrcFacts.
 
-Theorem C03_smoke : chain_extract (Link KCoro (Some 0) false (Link KGen (Some 1) false Nil)) [] true
-              = Ok (ref_stack (Link KCoro (Some 0) false (Link KGen (Some 1) false Nil))).
-Proof. exact smoke. Qed.
-Print Assumptions C03_smoke.
+(* For ALL well-formed chains of suspended links (coroutines / generators not running; async
+   generators either parked at a yield or blocked in an await with ag_running = True), of any
+   length the model's fuel covers, extract(x) is: the frames along the await links, outermost
+   first / innermost last, each with hide = False and its own object as origin; the terminal
+   non-frame object as leaf, None if frames tell the whole story; no error — for both values of
+   with_contexts. *)
+Theorem C03_frames_eq_path :
+  forall ch sl wc,
+    wf_susp ch = true -> is_nil ch = false -> 2 * chain_len ch + 2 <= default_fuel ->
+    extract (chain_cfg ch sl wc all_guards 100) chain_root = Ok (ref_stack ch).
+Proof. exact frames_eq_path. Qed.
+Print Assumptions C03_frames_eq_path.
+
+(* The same for every chain length: any fuel >= 2 * length + 2 suffices, with any containment
+   guards (no hook raises on such chains) and any progress-guard constant >= 2. *)
+Theorem C03_frames_eq_path_any_length :
+  forall ch sl wc g ug fuel,
+    wf_susp ch = true -> is_nil ch = false -> 2 <= ug -> 2 * chain_len ch + 2 <= fuel ->
+    fst (run fuel false (chain_cfg ch sl wc g ug) (root_q (chain_cfg ch sl wc g ug) chain_root) [] [] [] 0)
+    = Ok (ref_stack ch).
+Proof. exact frames_eq_path_fuel. Qed.
+Print Assumptions C03_frames_eq_path_any_length.
+
+(* ... in particular for the guard constant and the containment guards regenerated from the
+   source of extract_iter on this run *)
+Theorem C03_frames_eq_path_src_constants :
+  forall ch sl wc fuel,
+    wf_susp ch = true -> is_nil ch = false -> 2 * chain_len ch + 2 <= fuel ->
+    let c := chain_cfg ch sl wc
+               {| g_unwrap := extract_g_unwrap; g_iter := extract_g_iter; g_ctx := extract_g_ctx;
+                  g_fill := extract_g_fill; g_elab := extract_g_elab |} unwrap_guard in
+    fst (run fuel false c (root_q c chain_root) [] [] [] 0) = Ok (ref_stack ch).
+Proof.
+  intros ch sl wc fuel Hwf Hnil Hfuel. apply frames_eq_path_fuel; auto.
+  apply Nat.leb_le. reflexivity.
+Qed.
+Print Assumptions C03_frames_eq_path_src_constants.
+
+(* an exhausted (or closed) coroutine / generator / async generator yields no frames, no leaf *)
+Theorem C03_exhausted_no_frames :
+  forall k sl wc, extract (chain_cfg (Link k None false Nil) sl wc all_guards 100) chain_root
+                  = Ok (Stack [] LNone []).
+Proof. exact exhausted_no_frames. Qed.
+Print Assumptions C03_exhausted_no_frames.
+
+(* For ALL chains (suspended or not, well-formed or not), ALL roots and ALL tables of
+   contexts_active_in_frame / fill_context results (including raising ones and nested child
+   extractions): if extract(x, with_contexts=True) returns a Stack, extract(x,
+   with_contexts=False) returns one with the same frames (id, hide, origin) and the same leaf. *)
+Theorem C03_contexts_flag_irrelevant :
+  forall ch sl cx fl g root s,
+    extract (chain_cfg_gen ch sl cx fl true g 100) root = Ok s ->
+    exists s', extract (chain_cfg ch sl false g 100) root = Ok s' /\ strip s' = strip s.
+Proof. exact contexts_flag_irrelevant. Qed.
+Print Assumptions C03_contexts_flag_irrelevant.
+
+(* hence with contexts on, whatever the context tables, frames and leaf of a suspended chain
+   are still the reference path *)
+Theorem C03_frames_eq_path_any_contexts :
+  forall ch sl cx fl s,
+    wf_susp ch = true -> is_nil ch = false -> 2 * chain_len ch + 2 <= default_fuel ->
+    extract (chain_cfg_gen ch sl cx fl true all_guards 100) chain_root = Ok s ->
+    strip s = strip (ref_stack ch).
+Proof. exact frames_eq_path_any_contexts. Qed.
+Print Assumptions C03_frames_eq_path_any_contexts.
